@@ -146,6 +146,11 @@ func init() {
 			if fn := env.Prog.Func("cmd/aa-log", "aaLog"); fn != nil {
 				g.Static = append(g.Static, frame.PrintsProducers(env.Prog, fn, []string{"strings.Join<pkg/logs.GetApparmorLogs", "pkg/logs.AppArmorLogs).String<pkg/logs.New", "pkg/aa.Profile).String"}))
 			}
+			// logs.New (slices of maps: outside the VC generator's subset) never indexes out of range,
+			// whatever a record looks like: zero-annotation bounds obligation over its SSA
+			if fn := env.Prog.Func("pkg/logs", "New"); fn != nil {
+				g.Static = append(g.Static, frame.IndexSafety(env.Prog, fn))
+			}
 			// "reports nothing that is not in the input": no value is interpreted as a format
 			g.Static = append(g.Static, frame.ConstantFormats(env.Prog, reach))
 			g.Unverified = []string{
@@ -282,9 +287,32 @@ func init() {
 			}
 			g.Extra["per_file_call_graph_functions"] = len(pfReach)
 			g.Extra["maprange_call_graph_functions"] = len(reach)
+			// what Build writes for a file is a function of that file's text alone (through the
+			// two per-file stages proved free of carried state above): nothing else, e.g. a copy
+			// kept from an earlier run, can reach the output
+			g.Static = append(g.Static, buildShape(env, g)...)
+			// concurrency: no goroutine on the build's call graph has an effect that depends on
+			// the order in which goroutines finish (the technique decides nothing else about them)
+			g.Static = append(g.Static, frame.Goroutines(env.Prog, reach))
 			return g
 		},
 	})
+}
+
+// buildShape: cli.Build reads every file of the build directory, passes the text through
+// builder.Run then directive.Run, and writes exactly that result back (SSA shape obligations
+// shared by C02, C07 and C17).
+func buildShape(env *Env, g *Gen) []frame.Result {
+	fn := env.Prog.Func("pkg/prebuild/cli", "Build")
+	if fn == nil {
+		g.OutOfDate = append(g.OutOfDate, "pkg/prebuild/cli:Build")
+		return nil
+	}
+	g.addFunc(env, fn)
+	return []frame.Result{
+		frame.PipelineShape(env.Prog, fn, []string{"pkg/paths.Path).ReadFileAsString", "pkg/prebuild/builder.Run", "pkg/prebuild/directive.Run", "pkg/paths.Path).WriteFile"}),
+		frame.AllFilesOf(env.Prog, fn, "RootApparmord"),
+	}
 }
 
 // guardedState discharges the "opt storefirst=<pkg/var>" clauses: the functions carrying
@@ -360,6 +388,9 @@ func init() {
 			if fn := env.Prog.Func("pkg/prebuild/directive", "Run"); fn != nil {
 				g.Static = append(g.Static, frame.DirectiveRunShape(env.Prog, fn))
 			}
+			// the directives of every file of the build directory are expanded: Build hands each
+			// file's text through directive.Run and writes what it returns
+			g.Static = append(g.Static, buildShape(env, g)...)
 			g.Static = append(g.Static, boundedC07Exec(env))
 			g.Static = append(g.Static, boundedC07Stack(env))
 			g.Unverified = []string{
